@@ -214,6 +214,13 @@ class Transform(data_input.DataInputAbstract, Numbered_MCNP_Object):
         )
         if needs_rotation:
             flat_pack = self.rotation_matrix
+            if len(flat_pack) == 0 and not self.is_main_to_aux:
+                # M is the 13th entry: behind the displacement alone MCNP would read it as the first
+                # entry of the rotation matrix, so the default rotation (none) is written out
+                if self.is_in_degrees:
+                    flat_pack = np.array([0.0, 90.0, 90.0, 90.0, 0.0, 90.0, 90.0, 90.0, 0.0])
+                else:
+                    flat_pack = np.array([1.0, 0.0, 0.0, 0.0, 1.0, 0.0, 0.0, 0.0, 1.0])
             i = -1
             for i, (value, node) in enumerate(zip(flat_pack, list_iter)):
                 node.value = value
@@ -225,7 +232,10 @@ class Transform(data_input.DataInputAbstract, Numbered_MCNP_Object):
                     new_values.append(node)
             # if main to aux specified or is needed
             # entries after shortcut expansion, not syntax nodes
-            if len(list(self.data)) == 13 or not self.is_main_to_aux:
+            # M can only follow a full matrix
+            if (
+                len(list(self.data)) == 13 and len(flat_pack) == 9
+            ) or not self.is_main_to_aux:
                 if len(list(self.data)) == 13:
                     node = self.data[-1]
                 else:
